@@ -310,6 +310,8 @@ def r9_orderly_socket_close(ctx):
 
 
 def run(ctx):
+    from . import C14 as _C14q
+    _C14q.r6_monitor_is_the_only_silence_rule(ctx)   # a direction that is quiet is not a direction that has ended: no read deadline closes a session (and every stream on it) because one side only listens
     r9_orderly_socket_close(ctx)
     from . import C02 as _C02t
     _C02t.r4_inert_branches(ctx)      # data for a stream whose reader has gone is dropped, not turned into a session error: one stream's early end does not end its siblings before their data is through
